@@ -13,7 +13,9 @@ static void setVec(std::vector<uint8_t>& v, const uint8_t* src, uint8_t n) {
 
 // the relation R between handler state and recogniser state
 static bool related(DirectProtocolHandler& h, const P& r, bool idleQueues = true, bool anyDevice = false) {
-  if (h.m_currentRequest != nullptr || h.m_currentAnswering) return false;
+  // the answering flag is reset on entry to skip/ready only; it can be left set in noSignal (after a timeout while answering),
+  // where nothing reads it before the next symbol resets it
+  if (h.m_currentRequest != nullptr || (h.m_currentAnswering && h.m_state != bs_noSignal)) return false;
   // passive operation never touches the request queues or the device's arbitration state
   if (idleQueues && (h.m_nextRequests.peek() != nullptr || h.m_finishedRequests.peek() != nullptr)) return false;
   {
